@@ -3,12 +3,17 @@
 ROOT="$(realpath "${1:-/verif/seeded}")"; W="${2:-6}"
 export GOFLAGS=-mod=mod GOPROXY=off GOSUMDB=off GOTOOLCHAIN=local GOWORK=off
 DV=$(mktemp /tmp/dcpverif.XXXXXX); cp /verif/bin/dcpverif "$DV"; chmod +x "$DV"   # private copy: the checker may be rebuilt meanwhile
+rm -rf /tmp/dcpverif-scratch/lock.* 2>/dev/null
 trap 'rm -f "$DV"' EXIT
 one() {
   sd="$1"; ROOT="$2"; DV="$3"
-  D=$(mktemp -d /tmp/seedrun.XXXXXX)
-  rsync -a --exclude .git /repo/ "$D/repo/"
-  (cd "$D/repo" && patch -p1 -s < "$sd/patch.diff") || { echo "$sd PATCH-FAILED"; rm -rf "$D"; return; }
+  # a fixed set of scratch directories (one per worker slot): unchanged packages then hit the Go build cache instead
+  # of filling it with one copy per run
+  SLOTS=/tmp/dcpverif-scratch; mkdir -p "$SLOTS"; k=0
+  while ! mkdir "$SLOTS/lock.$k" 2>/dev/null; do k=$(( (k+1) % 32 )); [ $k -eq 0 ] && sleep 0.2; done
+  D="$SLOTS/w$k"; rm -rf "$D"; mkdir -p "$D"
+  rsync -a --exclude .git /repo/ "$D/repo/"; case "$D" in /tmp/*) [ -f "$D/repo/go.mod" ] || { echo "scratch copy failed: $D" >&2; exit 9; };; *) echo "refusing to work outside /tmp: [$D]" >&2; exit 9;; esac
+  (cd "$D/repo" && patch -p1 -s < "$sd/patch.diff") || { echo "$sd PATCH-FAILED"; rm -rf "$D"; rmdir "$SLOTS/lock.$k"; return; }
   out=$("$DV" -prop all -repo "$D/repo" -out /verif -no-evidence 2>&1)
   n=$(echo "$out" | grep -c " obligations, ")
   fired=$(echo "$out" | grep -oE "^VIOLATION property=C[0-9]+" | sed 's/VIOLATION property=//' | tr '\n' ' ')
@@ -17,7 +22,7 @@ one() {
   hit="MISSED"; echo " $fired" | grep -q " $own " && hit="caught"
   [ "$n" -eq 20 ] || hit="CHECKER-ERROR($n)"
   echo "$(echo $sd | sed "s#$ROOT/##") own=$hit fired=[$fired] rules=[$rules]"
-  rm -rf "$D"
+  rm -rf "$D"; rmdir "$SLOTS/lock.$k"
 }
 export -f one
 ls -d $ROOT/C*-[0-9]* $ROOT/C*/[0-9]* 2>/dev/null | sort | xargs -P "$W" -I{} bash -c 'one "$@"' _ {} "$ROOT" "$DV" | sort -V
